@@ -130,7 +130,9 @@ class Cfg:
             Lo = max(0, math.floor(lo_s * 1e9 / unit_ns) - slack)
             Hi = math.ceil(hi_s * 1e9 / unit_ns) + slack
         self.Lo, self.Hi = Lo, Hi
-        self.bound = D + Hi + I
+        # completeness deadline after the stop: in-flight heartbeats (D) + envelope (Hi) + the next probe tick (I);
+        # an observer that had not yet started probing when the member stopped counts its rounds from its start()
+        self.bound = D + Hi + I + max(self.offsets)
 
     def P(self):
         return {"n": self.n, "I": self.I, "half": self.half, "S": self.S, "D": self.D, "Lo": self.Lo,
@@ -623,9 +625,12 @@ class World(Cluster):
             else:
                 ev = it["ev"]
                 if it["kind"] == "tick" and self.cfg.scripted:
+                    # the forced answers never leave the envelope of what the detector has observably seen
+                    # (a behaviour taken from a deviating model may ask for more or less)
+                    may, must = self.envelope(i)
                     if sus is None:
-                        may, must = self.envelope(i)
                         sus = self.policy.sus(self, i, may, must)
+                    sus = (set(sus) & may) | must
                     for name, info in nd._members.items():
                         info.detector.forced = self.idx[name] in sus
                         forced.append(info.detector)
